@@ -274,7 +274,9 @@ Inductive res :=
 
 Record rstream := {     (* ReceiveStream *)
   r_eof : bool;         (* currentFrameIsLast && currentFrame == nil *)
-  r_cancel : bool;      (* cancelledLocally || isRemoteCancellationEffective() *)
+  r_cancelErr : bool;   (* cancelErr != nil: CancelRead, RESET_STREAM or RESET_STREAM_AT seen (effective or not) *)
+  r_cancel : bool;      (* cancelledLocally || isRemoteCancellationEffective(): a RESET_STREAM_AT whose reliable
+                           part has not been read completely is NOT effective yet — Read waits for the rest *)
   r_shutdown : option errk;
   r_data : bool }.      (* a frame is available *)
 Record sstream := {     (* SendStream *)
@@ -283,8 +285,12 @@ Record sstream := {     (* SendStream *)
   s_finished : bool;    (* finishedWriting *)
   s_room : bool }.      (* the write can be buffered completely *)
 
+(** closeForShutdown records the error UNCONDITIONALLY — in particular also when cancelErr is set *)
 Definition r_closeForShutdown (r : rstream) (e : errk) : rstream :=
-  {| r_eof := r_eof r; r_cancel := r_cancel r; r_shutdown := Some e; r_data := r_data r |}.
+  {| r_eof := r_eof r; r_cancelErr := r_cancelErr r; r_cancel := r_cancel r; r_shutdown := Some e; r_data := r_data r |}.
+(** a variant that leaves a stream with a cancellation error alone (what seeded change C17-d does) *)
+Definition r_closeForShutdown_unless_cancelled (r : rstream) (e : errk) : rstream :=
+  if r_cancelErr r then r else r_closeForShutdown r e.
 Definition s_closeForShutdown (s : sstream) (e : errk) : sstream :=
   match s_shutdown s with
   | None => if s_finished s then s
